@@ -13,6 +13,7 @@ M3  the recorded histories are validated by TraceClient.tla (restore, freshness 
 from __future__ import annotations
 
 import contextlib
+import hashlib
 import io
 import json
 import logging
@@ -230,6 +231,19 @@ def reference_digests(fams: list) -> dict:
     return refs
 
 
+def full_digest(report_path) -> str:
+    """Report text (without date / time lines) plus the JSON side file written next to it, which carries the unrounded figures."""
+    rp = Path(report_path)
+    dg = digest_report(rp.read_text())
+    js = rp.with_suffix('.json')
+    if js.exists():
+        try:
+            dg += ':' + hashlib.sha256(json.dumps(json.loads(js.read_text()), sort_keys=True).encode()).hexdigest()[:12]
+        except ValueError:
+            dg += ':unparsable-json'
+    return dg
+
+
 def sequence_history(item):
     """Worker: a sequence of different inputs run in ONE process through fresh non-caching clients (contamination)."""
     tag, texts = item
@@ -249,7 +263,7 @@ def sequence_history(item):
             try:
                 with contextlib.redirect_stdout(sink), contextlib.redirect_stderr(sink):
                     r = GeophiresXClient(enable_caching=False).get_geophires_result(GeophiresInputParameters(from_file_path=f))
-                dg = digest_report(Path(r.output_file_path).read_text())
+                dg = full_digest(r.output_file_path)
             except Exception as ex:  # noqa: BLE001
                 dg = 'failed'
             out.append({'input': ident, 'digest': dg, 'how': f'{tag}#{k}'})
@@ -273,7 +287,7 @@ def cli_run(item):
     env = subprocess_env(hashseed=hashseed)
     env.pop('GEOPHIRES_X_VERIF', None)
     p = subprocess.run([sys.executable, '-m', 'geophires_x', str(inp), str(out)], cwd=str(cwd), env=env, capture_output=True, text=True, timeout=2400)
-    dg = digest_report(out.read_text()) if out.exists() and p.returncode == 0 else f'failed rc={p.returncode}'
+    dg = full_digest(out) if out.exists() and p.returncode == 0 else f'failed rc={p.returncode}'
     shutil.rmtree(root, ignore_errors=True)
     return {'input': ident, 'digest': dg, 'how': f'cli seed={hashseed} cwd={startdir}'}
 
@@ -345,7 +359,8 @@ def run(tier: str, only_key: dict | None = None) -> int:
     lean = 'Reservoir Model, 4\nEnd-Use Option, 2\nPower Plant Type, 9\nPlant Lifetime, 10\nTime steps per year, 2\nPrint Output to Console, 0\n'
     texts['lean|v1'] = lean
     texts['lean3seg|v1'] = lean + 'Number of Segments, 3\nGradient 2, 40\nThickness 1, 1.2\n'
-    for n in ('example_multiple_gradients', 'example2', 'example10_HP', 'example12_DH', 'S-DAC-GT', 'example_overpressure'):
+    for n in ('example_multiple_gradients', 'example2', 'example10_HP', 'example12_DH', 'S-DAC-GT', 'example_overpressure', 'example1', 'example3',
+              'Fervo_Project_Cape-3', 'example5'):
         if n in ex:
             texts[f'{n}|v1'] = ex[n]
     idents = list(texts)
@@ -355,6 +370,10 @@ def run(tier: str, only_key: dict | None = None) -> int:
         order = [rng.choice(idents) for _ in range(rng.randint(3, 5))]
         if k % 3 == 0:
             order = [order[0], 'lean|v1', order[1], 'lean3seg|v1', 'lean|v1']
+        elif k % 3 == 1:      # each analytical reservoir model after each other one (process-wide numerical settings must not carry over)
+            models = [i for i in ('example1|v1', 'example2|v1', 'example3|v1', 'example5|v1', 'Fervo_Project_Cape-3|v1', 'example12_DH|v1') if i in texts]
+            rng.shuffle(models)
+            order = models[:4] + [models[0]]
         seqs.append((f'seq{k}', [(i, texts[i]) for i in order]))
     seq_out = sim.call_in_pool('harness.c08:sequence_history', seqs)
     cli_items = []
@@ -368,6 +387,8 @@ def run(tier: str, only_key: dict | None = None) -> int:
     if 'Fervo_Norbeck_Latimer_2023' in ex:
         xb.append(('fervo', ex['Fervo_Norbeck_Latimer_2023']))     # multilateral wells: the well-geometry options matter here
     xpairs = cross_pairs(xb, 12 if tier == 'quick' else 60)
+    if tier == 'quick':
+        xpairs = [q for q in xpairs if q['family'] != 'sbt']      # an SBT run takes minutes: thorough tier only
     res.cov['interfering_parameter_pairs'] = [{k_: q[k_] for k_ in ('family', 'a', 'b', 'common')} for q in xpairs[:12]]
     for q in xpairs:
         ident = f"pair:{q['family']}:{q['a']}+{q['b']}"
